@@ -164,8 +164,17 @@ class Injector:
         cls.mon.register_callback(cls.TOOL, cls.mon.events.PY_START, cls._cb)
         cls.installed = True
 
+    _EXPLICIT_DUNDERS = ("__init__", "__call__", "__new__", "__teal__", "__init_subclass__", "__class_getitem__", "__getitem__", "__getattr__")
+
     @classmethod
     def _in_cm_protocol(cls, f) -> bool:
+        # Special methods the interpreter calls implicitly (__hash__, __eq__, __bool__, __len__,
+        # __str__, __del__ ...) may be entered from C paths that suppress or replace whatever they
+        # raise (PyDict_GetItem under OrderedDict iteration turned an injected abort into a
+        # KeyError): an abort is never placed at their entry, it is deferred to the next call.
+        n0 = f.f_code.co_name
+        if n0.startswith("__") and n0.endswith("__") and n0 not in cls._EXPLICIT_DUNDERS:
+            return True
         while f is not None:
             c = f.f_code
             if c in _CM_CODES:
